@@ -1,15 +1,20 @@
 (** C09 — multi-threaded operation is free of data races: PARTIAL (logical half, modelled shared
     state only; see DESIGN.md section 6, C09).  Only statements; proofs are [exact <lemma>] into
-    Workers/RaceProofs.v and Workers/AccessProofs.v.
-    Spec: Workers/Race.v — traces of accesses (thread, location, read/write, plain/atomic) and
-    mutex acquire/release; [hb] = transitive closure of program order and unlock->lock edges;
-    [race_on tr P] = two conflicting accesses to a location selected by P not ordered by [hb].
-    Model: Workers/Access.v — the accesses and lock operations of every transition of the C10
-    control LTS (Workers/Workers.v); [trace_of N parent s ls] is the access trace of schedule ls.
-    NOT covered (stated in the evidence on every run): every memory location outside
-    {mailboxes, notifier flags, search, quitFlag, search parameters, ponder/infinite}. *)
+    Workers/RaceProofs.v, Workers/AccessProofs.v and Workers/HandshakeProofs.v.
+    Spec: Workers/Race.v — traces of accesses (thread, location, read/write, plain / seq_cst atomic /
+    relaxed atomic) and mutex acquire/release; [hb] = transitive closure of program order,
+    unlock->lock edges and atomic-store -> atomic-load-that-reads-it edges; [race_on tr P] = two
+    conflicting accesses (at least one plain) to a location selected by P not ordered by [hb].
+    Model: Workers/Access.v — the C10 control LTS (Workers/Workers.v) extended with the UCI option
+    hand-shake (setOptionWhenIdle / setOptions / waitOptionsSet) and the accesses and lock operations
+    of every transition; [trace_of N parent gp x ls] is the access trace of schedule ls from x
+    (gp = true: go ponder waits for pending options, as in the code).
+    Modelled locations: mailboxes, notifier flags, search, quitFlag, search parameters,
+    ponder/infinite, pendingOptions, optionsSetFinished, option values, TT geometry/generation.
+    NOT covered (stated in the evidence on every run): every other memory location. *)
 From Coq Require Import ZArith List Bool Arith.
-From Texel Require Import Workers.Workers Workers.Race Workers.RaceProofs Workers.Access Workers.AccessProofs.
+From Texel Require Import Workers.Workers Workers.Race Workers.RaceProofs Workers.Access Workers.AccessProofs
+  Workers.WorkersInv Workers.HandshakeProofs.
 Import ListNotations.
 
 (** the executable one-pass detector used on recorded traces decides the relational definition *)
@@ -17,29 +22,38 @@ Theorem C09_detector_exact : forall P tr, raceb_on P tr = true <-> race_on tr P.
 Proof. exact raceb_on_spec. Qed.
 Print Assumptions C09_detector_exact.
 
-(** for every number of helpers, every communicator tree, every start state and every schedule:
-    no data race on any mailbox (cmdQueue) or notifier flag — every access is made inside a
-    critical section of the object's own mutex *)
-Theorem C09_model_drf_partial : forall N parent s ls tr,
-  trace_of N parent s ls = Some tr -> ~ race_on tr guarded.
+(** for every number of helpers, tree, start state and schedule: no data race on a mailbox, a
+    notifier flag, pendingOptions or optionsSetFinished (always accessed under their mutex) ... *)
+Theorem C09_model_drf_locked : forall N parent gp x ls tr,
+  trace_of N parent gp x ls = Some tr -> ~ race_on tr guarded.
 Proof. exact model_guarded_drf. Qed.
-Print Assumptions C09_model_drf_partial.
+Print Assumptions C09_model_drf_locked.
 
-(** ... and no schedule races on anything but [search], [quitFlag] and the search parameters *)
-Theorem C09_model_races_only_f9 : forall N parent s ls tr,
-  trace_of N parent s ls = Some tr -> ~ race_on tr (fun l => negb (f9_loc l)).
-Proof. exact model_races_only_f9. Qed.
-Print Assumptions C09_model_races_only_f9.
+(** ... nor on search, quitFlag, ponder/infinite (std::atomic objects, never accessed plainly) *)
+Theorem C09_model_drf_atomic : forall N parent gp x ls tr,
+  trace_of N parent gp x ls = Some tr -> ~ race_on tr atomic_loc.
+Proof. exact model_atomic_drf. Qed.
+Print Assumptions C09_model_drf_atomic.
 
-(** the full claim "no reachable trace of the LTS has a race" is FALSE of the faithful model
-    (finding F9): EngineMainThread::mainLoop reads [search] and [quitFlag] without the mutex that
-    guards their writers.  Witness schedules: a stale notification (setoption) wakes the engine
-    thread, which then reads the flag concurrently with the UCI thread's go / quit. *)
+(** the hand-off locations — search parameters, option values, TT geometry/generation — are plain
+    objects handed between the UCI thread and the engine thread: for every N, tree and schedule
+    from the initial state every pair of conflicting accesses to them by these two threads is
+    ordered by happens-before: through the engine mutex (waitOptionsSet / waitStop hand-shakes)
+    or through the seq_cst store / load of [search] *)
+Theorem C09_model_drf_handoff : forall N parent ls tr,
+  trace_of N parent true xinit ls = Some tr -> ~ race_between tr (uci N) 0 handoff_loc.
+Proof. exact model_handoff_drf. Qed.
+Print Assumptions C09_model_drf_handoff.
+
+(** the hand-shake is what orders them: if go ponder does not wait for pending options (gp = false)
+    the model races on the option values and on the table geometry / generation *)
+Theorem C09_unguarded_ponder_races :
+  exists tr, trace_of 0 par0 false xinit noguard_sched = Some tr /\ race_on tr is_opt /\ race_on tr is_tt.
+Proof. exact unguarded_ponder_races. Qed.
+Print Assumptions C09_unguarded_ponder_races.
+
+(** full statement for the modelled locations (not proved: the ordering of the helpers' reads of
+    option values / TT geometry against the engine thread's writes goes through the START and
+    STOP_ACK message edges of the whole communicator tree; it is checked on recorded traces) *)
 Definition C09_model_drf_statement : Prop :=
-  forall N parent ls tr, trace_of N parent init ls = Some tr -> ~ race tr.
-
-Theorem C09_model_drf_refuted :
-  (exists tr, trace_of 0 par0 init f9_search_sched = Some tr /\ race_on tr is_search /\ race_on tr is_params) /\
-  (exists tr, trace_of 0 par0 init f9_quit_sched = Some tr /\ race_on tr is_quit).
-Proof. exact model_drf_refuted. Qed.
-Print Assumptions C09_model_drf_refuted.
+  forall N parent ls tr, WorkersInv.tree_ok N parent -> trace_of N parent true xinit ls = Some tr -> ~ race tr.
